@@ -3,6 +3,7 @@ package spec_2022
 import (
 	"bytes"
 	"crypto/sha256"
+	"encoding/binary"
 	"errors"
 	"time"
 
@@ -335,9 +336,18 @@ func (Spec) MakeData(name enc.Name, config *ndn.DataConfig, content enc.Wire, si
 		}
 		wire[encoder.Data_encoder.SignatureValue_wireIdx] = sigVal
 		// Fix SignatureValue length
+		// (the length field keeps the width chosen for estSigLen; all of its bytes are rewritten)
 		buf := wire[encoder.Data_encoder.SignatureValue_wireIdx-1]
-		buf[len(buf)-1] = byte(len(sigVal))
-		// TODO: This needs to be fixed for estSigLen >= 253 (urgent)
+		switch {
+		case estSigLen <= 0xfc:
+			buf[len(buf)-1] = byte(len(sigVal))
+		case estSigLen <= 0xffff:
+			binary.BigEndian.PutUint16(buf[len(buf)-2:], uint16(len(sigVal)))
+		case estSigLen <= 0xffffffff:
+			binary.BigEndian.PutUint32(buf[len(buf)-4:], uint32(len(sigVal)))
+		default:
+			binary.BigEndian.PutUint64(buf[len(buf)-8:], uint64(len(sigVal)))
+		}
 		// Fix packet length
 		shrink := estSigLen - len(sigVal)
 		wire[0] = enc.ShrinkLength(wire[0], shrink)
